@@ -352,6 +352,41 @@ class LinearPaths:
     merged.vlevel = merged_vlevel
     return merged, first_reversed, last_reversed
 
+  def __move_edge_to_merged(self, edge, edge_clone, merged_name, segment_end,
+                            is_reversed):
+    """
+    GFA2: let the sides of edge_clone which involve segment_end refer to
+    the corresponding end of the merged segment (identifier, orientation and
+    coordinates, which are the prefix or suffix of the same length of the
+    merged segment).
+    """
+    mlen = self.segment(merged_name).slen
+    merged_end = gfapy.invert(segment_end.end_type) \
+                   if is_reversed else segment_end.end_type
+    for n in ["1", "2"]:
+      sid = edge.get("sid"+n)
+      if sid.name != segment_end.name:
+        continue
+      beg = edge.get("beg"+n)
+      end = edge.get("end"+n)
+      if gfapy.islastpos(end) and not gfapy.isfirstpos(beg):
+        side_end = "R"
+      elif gfapy.isfirstpos(beg) and not gfapy.islastpos(end):
+        side_end = "L"
+      else:
+        continue
+      if side_end != segment_end.end_type:
+        continue
+      k = gfapy.posvalue(end) - gfapy.posvalue(beg)
+      orient = gfapy.invert(sid.orient) if is_reversed else sid.orient
+      edge_clone.set("sid"+n, gfapy.OrientedLine(merged_name, orient))
+      if merged_end == "L":
+        edge_clone.set("beg"+n, 0)
+        edge_clone.set("end"+n, gfapy.LastPos(k) if k == mlen else k)
+      else:
+        edge_clone.set("beg"+n, gfapy.LastPos(mlen) if k == 0 else mlen - k)
+        edge_clone.set("end"+n, gfapy.LastPos(mlen))
+
   def __link_merged(self, merged_name, segment_end, is_reversed):
     to_disconnect = []
     for l in self.segment(segment_end.segment).dovetails_of_end(
@@ -362,6 +397,10 @@ class LinearPaths:
     to_add = []
     for l in to_disconnect:
       l2 = l.clone()
+      if l2.record_type == "E":
+        self.__move_edge_to_merged(l, l2, merged_name, segment_end, is_reversed)
+        to_add.append(l2)
+        continue
       # each side of the link which involves the segment end is moved
       to_matches = (l2.to_end == segment_end)
       from_matches = (l2.from_end == segment_end)
